@@ -505,6 +505,34 @@ def correspond(ctx):
             if any(S1[i, j] != 0 for i in range(n) for j in range(n) if i > j + (1 if tc == 'd' else 0)): viol('gges-not-triangular', 'gges: S is not (quasi-)upper triangular', d_)
             if tc == 'z': chk('gges-eigenvalues', max([abs(a_[i] - S1[i, i]) + abs(b_[i] - T1[i, i]) for i in range(n)] + [0.0]), mag(S_) + mag(T_), 'gges: (a, b) are not the diagonals of S and T', d_)
         except Exception as e: viol('raises-on-valid:gges', 'gges raised %s (%s)' % (type(e).__name__, e), d_)
+        # ordered Schur forms: gees(select=f) / gges(select=f) put the selected eigenvalues first and return their number
+        n = rng.randint(1, 4); As = rand(n, n, tc)
+        d_ = dict(desc0, A=list(As), n=n)
+        try:
+            w0 = matrix(0.0, (n, 1), 'z'); lapack.gees(+As, w0)
+            thr = sorted(complex(v).real for v in w0)[n // 2] - 1e-3            # between eigenvalues (conjugate pairs share the real part)
+            sel = lambda ev: ev.real > thr
+            expected = sum(1 for v in w0 if complex(v).real > thr)
+            T1 = +As; w1 = matrix(0.0, (n, 1), 'z'); V1 = matrix(0.0, (n, n), tc)
+            sdim = lapack.gees(T1, w1, V1, select=sel)
+            if sdim != expected: viol('gees-select-count', 'gees(select=Re > %g) returned sdim = %r, %d eigenvalues satisfy the criterion' % (thr, sdim, expected), d_)
+            elif any(not sel(complex(w1[i])) for i in range(sdim)) or any(sel(complex(w1[i])) for i in range(sdim, n)):
+                viol('gees-select-order', 'gees(select=...): the selected eigenvalues are not the leading ones: %r' % [complex(v) for v in w1], d_)
+            V_, T_ = rows(V1), rows(T1)
+            chk('gees-select', dist(mm(V_, mm(T_, hh(V_))), rows(As)), mag(rows(As)), 'gees(select=...): ||V T V^H - A||', d_)
+            chk('gees-select-orth', dist(mm(hh(V_), V_), ident(n)), 1.0, 'gees(select=...): ||V^H V - I||', d_)
+            Bs = wellcond(n, tc)
+            a0 = matrix(0.0, (n, 1), 'z'); b0 = matrix(0.0, (n, 1), 'd'); lapack.gges(+As, +Bs, a0, b0)
+            ratios = [complex(a0[i]) / b0[i] for i in range(n)]
+            thr2 = sorted(r_.real for r_ in ratios)[n // 2] - 1e-3
+            sel2 = lambda al, be: (al / be).real > thr2
+            exp2 = sum(1 for r_ in ratios if r_.real > thr2)
+            S2 = +As; T2 = +Bs; a2 = matrix(0.0, (n, 1), 'z'); b2 = matrix(0.0, (n, 1), 'd'); L2 = matrix(0.0, (n, n), tc); R2 = matrix(0.0, (n, n), tc)
+            sdim2 = lapack.gges(S2, T2, a2, b2, L2, R2, select=sel2)
+            if sdim2 != exp2: viol('gges-select-count', 'gges(select=...) returned sdim = %r, %d generalised eigenvalues satisfy the criterion' % (sdim2, exp2), dict(d_, B=list(Bs)))
+            L_, R_ = rows(L2), rows(R2)
+            chk('gges-select', dist(mm(L_, mm(rows(S2), hh(R_))), rows(As)), mag(rows(As)), 'gges(select=...): ||Vsl S Vsr^H - A||', dict(d_, B=list(Bs)))
+        except Exception as e: viol('raises-on-valid:gees-select', 'gees / gges with select raised %s (%s)' % (type(e).__name__, e), d_)
         # lacpy: the selected part is copied, the rest of B is untouched
         m = rng.randint(0, 4); nn = rng.randint(0, 4); A1 = rand(m, nn, tc); B1 = rand(m, nn, tc); B0 = +B1; up = rng.choice('NLU')
         lapack.lacpy(A1, B1, uplo=up)
